@@ -3,6 +3,7 @@
 package main
 
 import (
+	"bytes"
 	"context"
 	"errors"
 	"fmt"
@@ -15,7 +16,9 @@ import (
 	"github.com/NethermindEth/juno/blockchain/networks"
 	"github.com/NethermindEth/juno/core"
 	"github.com/NethermindEth/juno/core/felt"
+	"github.com/NethermindEth/juno/db"
 	"github.com/NethermindEth/juno/db/memory"
+	"github.com/NethermindEth/juno/encoder"
 	"github.com/NethermindEth/juno/l1"
 	"github.com/NethermindEth/juno/l1/eth"
 	"github.com/NethermindEth/juno/utils/log"
@@ -52,12 +55,65 @@ type Observed struct {
 	EndedEarly bool `json:"ended_early,omitempty"`
 	// FeedSlow: a subscriber that takes a value every now and then; FeedIdle: one that only looks
 	// at its slot when everything is over
+	DBFaultFired bool    `json:"db_fault_fired,omitempty"`
+	DBFaultHead  *HeadJ  `json:"db_fault_head,omitempty"`
+	FeedSent []HeadJ `json:"feed_sent"` // every value Blockchain.SetL1Head sent on the feed = the notifications (+ a failed write's)
 	FeedSlow []HeadJ `json:"feed_slow"`
 	FeedIdle []HeadJ `json:"feed_idle"`
 	// geth family: what the fake node pushed on the subscription / answered to eth_getLogs
 	Emitted      []Log    `json:"emitted,omitempty"`
 	FilterGot    [][]Log  `json:"filter_got,omitempty"`
 	GethProblems []string `json:"geth_problems,omitempty"`
+}
+
+// faultyKV wraps the memory database: the client's reads / writes of the stored L1 head can be
+// made to fail (the harness itself reads and writes through the raw database).
+type faultyKV struct {
+	db.KeyValueStore
+	mu         sync.Mutex
+	kind       string
+	at         int
+	reads, wrs int
+	fired      bool
+	wrote      *HeadJ // the head whose write failed (it had been sent on the feed before)
+}
+
+var errDB = errors.New("scripted database failure")
+
+func (k *faultyKV) Get(key []byte, cb func([]byte) error) error {
+	if bytes.Equal(key, db.L1Height.Key()) {
+		k.mu.Lock()
+		k.reads++
+		fail := k.kind == "r" && k.reads == k.at
+		if fail {
+			k.fired = true
+		}
+		k.mu.Unlock()
+		if fail {
+			return errDB
+		}
+	}
+	return k.KeyValueStore.Get(key, cb)
+}
+
+func (k *faultyKV) Put(key, value []byte) error {
+	if bytes.Equal(key, db.L1Height.Key()) {
+		k.mu.Lock()
+		k.wrs++
+		fail := k.kind == "w" && k.wrs == k.at
+		if fail {
+			k.fired = true
+			var h core.L1Head
+			if err := encoder.Unmarshal(value, &h); err == nil {
+				k.wrote = headJ(&h)
+			}
+		}
+		k.mu.Unlock()
+		if fail {
+			return errDB
+		}
+	}
+	return k.KeyValueStore.Put(key, value)
 }
 
 type scriptedSub struct {
@@ -79,6 +135,7 @@ type provider struct {
 	cond  *sync.Cond
 	c     *Case
 	chain *blockchain.Blockchain
+	raw   db.KeyValueStore
 
 	marks  []Mark
 	events []Log
@@ -211,7 +268,7 @@ func headJ(h *core.L1Head) *HeadJ {
 }
 
 func (p *provider) storedHead() *HeadJ {
-	h, err := p.chain.L1Head()
+	h, err := core.GetL1Head(p.raw)
 	if err != nil {
 		return nil
 	}
@@ -495,16 +552,17 @@ func runCase(c *Case) *Observed {
 			stalls.Add(1)
 		}
 	}()
-	database := memory.New()
-	chain := blockchain.New(database, &networks.Mainnet)
+	raw := memory.New()
+	kv := &faultyKV{KeyValueStore: raw, kind: c.DBFault, at: c.DBFaultAt}
+	chain := blockchain.New(kv, &networks.Mainnet)
 	if c.Stored != nil {
-		_ = chain.SetL1Head(&core.L1Head{
+		_ = core.WriteL1Head(raw, &core.L1Head{
 			BlockNumber: c.Stored.L2,
 			BlockHash:   new(felt.Felt).SetUint64(c.Stored.Hash),
 			StateRoot:   new(felt.Felt).SetUint64(c.Stored.Root),
 		})
 	}
-	p := &provider{c: c, chain: chain, cur: c.Fin2, chainIDFails: c.ChainIDFails,
+	p := &provider{c: c, chain: chain, raw: raw, cur: c.Fin2, chainIDFails: c.ChainIDFails,
 		fin2Fails: c.Fin2Fails, watchFails: c.WatchFails}
 	p.cond = sync.NewCond(&p.mu)
 	if c.Geth {
@@ -652,6 +710,14 @@ func runCase(c *Case) *Observed {
 	obs.Marks = append([]Mark(nil), p.marks...)
 	obs.Events = append([]Log(nil), p.events...)
 	obs.Notes = append([]HeadJ(nil), p.notes...)
+	obs.FeedSent = append([]HeadJ(nil), p.notes...)
+	kv.mu.Lock()
+	obs.DBFaultFired = kv.fired
+	if kv.wrote != nil {
+		obs.DBFaultHead = kv.wrote
+		obs.FeedSent = append(obs.FeedSent, *kv.wrote)
+	}
+	kv.mu.Unlock()
 	obs.FilterGot = p.filterGot
 	obs.GethProblems = p.problems
 	p.mu.Unlock()
